@@ -20,6 +20,7 @@ import Rpki.Gen.BerEq
 import Rpki.Proofs.BerMono
 import Rpki.Gen.BerLemmas
 import Rpki.Gen.BerLemmas2
+import Rpki.Gen.BerMonoGen
 namespace Rpki.Props.C04
 set_option autoImplicit false
 open Rpki.Der
@@ -301,5 +302,25 @@ theorem skip_machine_either_mode (ber : Bool) (b : Bytes) :
     (∀ rest, CertDer.skipOneM ber b = some rest → rest <:+ b ∧ rest.length + 2 ≤ b.length) ∧
     (∀ k, CertDer.skipLoopM ber (b.length + 1 + k) b [] = CertDer.skipOneM ber b) :=
   ⟨fun rest h => CertDer.skipOne_suffixM ber b rest h, fun k => CertDer.skipOne_fuelM ber b k⟩
+
+/-- **Relaxed mode extends strict mode.** Every octet string a strict decoder accepts is accepted by the relaxed
+decoder with the same result — certificates, signed objects (also with the typed content check), identity
+certificates, signed messages, and the walk over a message CRL's revocation list.  48 generated lemmas
+(`Gen/BerMonoGen.lean`: for every definition, "the DER side did not refuse → the BER side returns the same"),
+on top of the reader-level facts of `der_values_are_read_in_ber`. -/
+theorem relaxed_extends_strict :
+    (∀ b d, CertDer.decodeCert b = some d → CertDer.decodeCertM true b = some d) ∧
+    (∀ b o, CmsDer.decodeSigObj b = some o → CmsDer.decodeSigObjM true b = some o) ∧
+    (∀ ty b o, CmsDer.decodeTyped ty b = some o → CmsDer.decodeTypedM true ty b = some o) ∧
+    (∀ b d, SigMsgDer.decodeIdCert b = some d → SigMsgDer.decodeIdCertM true b = some d) ∧
+    (∀ b m, SigMsgDer.decodeSigMsg b = some m → SigMsgDer.decodeSigMsgM true b = some m) ∧
+    (∀ cap l, SigMsgDer.msgRevokedSerials cap = some l → SigMsgDer.msgRevokedSerialsM true cap = some l) := by
+  refine ⟨?_, ?_, ?_, ?_, ?_, ?_⟩
+  · intro b d h; rw [CertDer.decodeCert_monoEq b (by simp [h]), h]
+  · intro b o h; rw [CmsDer.decodeSigObj_monoEq b (by simp [h]), h]
+  · intro ty b o h; rw [CmsDer.decodeTyped_monoEq ty b (by simp [h]), h]
+  · intro b d h; rw [SigMsgDer.decodeIdCert_monoEq b (by simp [h]), h]
+  · intro b m h; rw [SigMsgDer.decodeSigMsg_monoEq b (by simp [h]), h]
+  · intro cap l h; rw [SigMsgDer.msgRevokedSerials_monoEq cap (by simp [h]), h]
 
 end Rpki.Props.C04
